@@ -157,7 +157,9 @@ def run(c, chk):
                     chk.fail('R14.1', 'validcb-untested:state%d' % s, c.where(vc.ins), 'state %d ignores the result of the validation callback' % s, witness=[tr.describe()])
                 elif verdict:
                     after = tr.events[tr.events.index(vc) + 1:]
-                    eff = [e for e in after if (e.kind == 'call' and e.name not in ('free', 'cfg_error')) or (e.kind == 'store' and e.addr[0] != 'alloca')]
+                    eff = [e for e in after if (e.kind == 'call' and e.name not in ('free', 'cfg_error')
+                                                and not (e.name == 'cfg_free_value' and e.args and e.args[0][0] == 'alloca'))
+                           or (e.kind == 'store' and e.addr[0] != 'alloca')]
                     if not (tr.kind == 'ret' and tr.ret == 1) or eff:
                         chk.fail('R14.1', 'validcb-veto:state%d' % s, c.where(vc.ins), 'state %d: a failing validation callback does not stop the parse at that point' % s, witness=[tr.describe()])
                 if len(vc.args) != 2 or vc.args[1] != ('p', 'opt'):
